@@ -88,11 +88,11 @@ def main():
                     res.fail(f"Elastic result={name} none", f"advertised result '{name}' returns None", ident)
         for fld, arr, pre in (("displacement", u, "u"), ("speed", v, "v"), ("accel", a, "a")):
             for axn, k in AX.items():
-                if k >= dim:
+                if not (k < dim):
                     continue
                 got = simu.Result(pre + axn, nodeValues=True)
                 res.case((et, "kin", pre + axn))
-                if np.abs(np.asarray(got).ravel() - arr.reshape(Nn, dim)[:, k]).max() > 1e-12:
+                if not (np.abs(np.asarray(got).ravel() - arr.reshape(Nn, dim)[:, k]).max() <= 1e-12):
                     res.fail(f"sim=Elastic component={pre}{axn}", f"Result('{pre}{axn}') is not component {k} of the {fld}", ident)
         # tensor components vs tensor result, element form; and vs the independent Gauss-point values
         KK = K2 if dim == 2 else K3
@@ -100,24 +100,24 @@ def main():
             T = np.asarray(simu.Result(tname, nodeValues=False))
             indep = np.concatenate([gp.mean(1) for gp in gauss_stress(simu, mesh, u, strain)])
             res.case((et, tname))
-            if T.shape != indep.shape or np.abs(T - indep).max() > 1e-9 * (1 + np.abs(indep).max()):
+            if T.shape != indep.shape or not (np.abs(T - indep).max() <= 1e-9 * (1 + np.abs(indep).max())):
                 res.fail(f"sim=Elastic tensor={tname}", f"Result('{tname}') differs from the Gauss-point mean of {'B u' if strain else 'C B u'} by {np.abs(T - indep).max() if T.shape == indep.shape else 'shape'}", ident)
                 continue
             for cn, k in KK.items():
                 got = np.asarray(simu.Result(letter + cn, nodeValues=False)).ravel()
                 res.case((et, letter + cn))
-                if np.abs(got - T[:, k]).max() > 1e-10 * (1 + np.abs(T).max()):
+                if not (np.abs(got - T[:, k]).max() <= 1e-10 * (1 + np.abs(T).max())):
                     res.fail(f"sim=Elastic component={letter}{cn}", f"Result('{letter}{cn}') differs from column {k} of Result('{tname}')", ident)
             gvm = np.concatenate([vm(gp, dim).mean(1) for gp in gauss_stress(simu, mesh, u, strain)])
             got = np.asarray(simu.Result(letter + "vm", nodeValues=False)).ravel()
             res.case((et, letter + "vm"))
-            if np.abs(got - gvm).max() > 1e-9 * (1 + np.abs(gvm).max()):
+            if not (np.abs(got - gvm).max() <= 1e-9 * (1 + np.abs(gvm).max())):
                 res.fail(f"sim=Elastic result={letter}vm", f"Result('{letter}vm') is not the per-element mean of the von Mises norm at the integration points (max dev {np.abs(got - gvm).max():.3e})", ident)
         # energy
         K = simu.Get_K_C_M_F()[0]
         W = simu.Result("Wdef")
         res.case((et, "Wdef"))
-        if abs(W - 0.5 * u @ (K @ u)) > 1e-9 * (1 + abs(W)):
+        if not (abs(W - 0.5 * u @ (K @ u)) <= 1e-9 * (1 + abs(W))):
             res.fail("sim=Elastic Wdef", f"Wdef = {W!r} but 1/2 u'Ku = {0.5 * u @ (K @ u)!r}", ident)
         # constant field through node <-> element conversion: uniform strain state
         G = np.array([[dy(rng) for _ in range(dim)] for _ in range(dim)])
@@ -126,9 +126,69 @@ def main():
         exx_e = np.asarray(simu.Result("Exx", nodeValues=False)).ravel()
         exx_n = np.asarray(simu.Result("Exx", nodeValues=True)).ravel()
         res.case((et, "const-conversion"))
-        if np.abs(exx_e - G[0, 0]).max() > 1e-9 or exx_n.size != Nn or np.abs(exx_n - G[0, 0]).max() > 1e-9:
+        if not (np.abs(exx_e - G[0, 0]).max() <= 1e-9) or exx_n.size != Nn or not (np.abs(exx_n - G[0, 0]).max() <= 1e-9):
             res.fail("sim=Elastic node-element conversion", f"uniform strain Exx = {G[0, 0]}: element values in [{exx_e.min()}, {exx_e.max()}], nodal values (size {exx_n.size}, Nn = {Nn}) in [{exx_n.min()}, {exx_n.max()}]", ident)
         res.sample(dict(ident, names=len(names)))
+
+    # ---------------- Svm / Evm on (nearly) spherical states: the deviator is many orders below the pressure ----------------
+    # u = a X + c (+ a perturbation of relative size pert): stress = -p I (+ small deviator), engineering units, body far from the origin.
+    # The equivalent stress is the norm of the DEVIATOR: it must come out at the deviator's scale, whatever the pressure is.
+    for et in ["TRI3", "QUAD4"] + types3 + ["PRISM6+HEXA8"]:
+        dim = mixed_[et][0] if et in mixed_ else M.dim_of(et)
+        for shift, pert in ((0.0, 0.0), (1000.0, 0.0), (0.0, 1e-7), (1000.0, 1e-6)):
+            mesh = mixed_[et][1]() if et in mixed_ else M.mesh_of(et)
+            if shift:
+                mesh.Translate(shift, shift, shift if dim == 3 else 0.0)
+            Eh = 210e9
+            mat = Models.Elastic.Isotropic(dim, E=Eh, v=0.3, planeStress=True, thickness=1.0) if dim == 2 else Models.Elastic.Isotropic(3, E=Eh, v=0.3)
+            simu = Simulations.Elastic(mesh, mat)
+            dil = -(1 + rng.randint(0, 7)) / 1024
+            cvec = np.array([dy(rng) for _ in range(dim)])
+            noise = np.array([dy(rng) for _ in range(mesh.Nn * dim)])
+            u = (dil * mesh.coord[:, :dim] + cvec).ravel() + pert * abs(dil) * noise
+            ident = dict(sim="Elastic", elemType=et, state="u = dil*X + c + pert*|dil|*noise", dil=dil, c=cvec.tolist(), pert=pert, translate=shift, E=Eh, v=0.3, Nn=int(mesh.Nn))
+            res.case((et, "spherical", shift, pert))
+            try:
+                simu._Set_solutions(simu.problemType, u.copy(), 0 * u, 0 * u)
+                for letter, tname, strain in (("S", "Stress", False), ("E", "Strain", True)):
+                    gps = gauss_stress(simu, mesh, u, strain)
+                    scale = max(np.abs(gp).max() for gp in gps)
+                    gvm = np.concatenate([vm(gp, dim).mean(1) for gp in gps])
+                    got = np.asarray(simu.Result(letter + "vm", nodeValues=False)).ravel()
+                    gotn = np.asarray(simu.Result(letter + "vm", nodeValues=True)).ravel()
+                    dev = np.abs(got - gvm).max() if got.shape == gvm.shape else np.inf
+                    if not np.all(np.isfinite(got)) or not (dev <= 1e-11 * scale):
+                        res.fail(f"sim=Elastic result={letter}vm nearly spherical state", f"Result('{letter}vm') is not the per-element mean of the von Mises norm at the integration points on a nearly spherical state: "
+                                 f"{int((~np.isfinite(got)).sum())} non-finite values, max deviation {dev:.3e} for components of size {scale:.3e} (independent value max {gvm.max():.3e})", ident)
+                        break
+                    if gotn.shape != (mesh.Nn,) or not np.all(np.isfinite(gotn)) or not (gotn.max() <= gvm.max() + 1e-11 * scale) or not (gotn.min() >= gvm.min() - 1e-11 * scale):
+                        res.fail(f"sim=Elastic result={letter}vm nodal nearly spherical state", f"nodal Result('{letter}vm') leaves the range [{gvm.min():.3e}, {gvm.max():.3e}] of the element values: [{np.nanmin(gotn):.3e}, {np.nanmax(gotn):.3e}], "
+                                 f"{int((~np.isfinite(gotn)).sum())} non-finite", ident)
+                        break
+            except Exception as ex:  # noqa: BLE001
+                res.fail("sim=Elastic nearly spherical state raises", f"{type(ex).__name__}: {str(ex)[:150]}", ident)
+    # the same from a solve: cube with sliding supports under the same pressure on its three free faces (exact stress -p I, Svm = 0 at the scale of p)
+    for et in types3:
+        mesh = M.mesh_3d(et, 1.0, 1.0, 1.0, 0.5)
+        simu = Simulations.Elastic(mesh, Models.Elastic.Isotropic(3, E=210e9, v=0.3))
+        p = 1e8 * (1 + rng.randint(0, 7))
+        ident = dict(sim="Elastic", elemType=et, case="unit cube, sliding supports x=0 y=0 z=0, pressure p on x=1 y=1 z=1", p=p)
+        res.case((et, "hydrostatic solve"))
+        try:
+            for k, ax in enumerate("xyz"):
+                simu.add_dirichlet(mesh.Nodes_Conditions(lambda x, y, z, k=k: (x, y, z)[k] == 0), [0], [ax])
+                simu.add_surfLoad(mesh.Nodes_Conditions(lambda x, y, z, k=k: (x, y, z)[k] == 1), [-p], [ax])
+            simu.Solve()
+            usol = np.asarray(simu.displacement).copy()
+            gps = gauss_stress(simu, mesh, usol)
+            gvm = np.concatenate([vm(gp, 3).mean(1) for gp in gps])
+            got = np.asarray(simu.Result("Svm", nodeValues=False)).ravel()
+            dev = np.abs(got - gvm).max() if got.shape == gvm.shape else np.inf
+            if not np.all(np.isfinite(got)) or not (dev <= 1e-11 * p) or not (np.abs(got).max() <= 1e-9 * p):
+                res.fail("sim=Elastic result=Svm hydrostatic compression", f"solved hydrostatic compression p = {p:.3e}: Result('Svm') has {int((~np.isfinite(got)).sum())} non-finite values, max {np.nanmax(np.abs(got)):.3e}, "
+                         f"deviation {dev:.3e} from the von Mises norm at the integration points (max {gvm.max():.3e})", ident)
+        except Exception as ex:  # noqa: BLE001
+            res.fail("sim=Elastic hydrostatic compression raises", f"{type(ex).__name__}: {str(ex)[:150]}", ident)
 
     # ---------------- node/element layout when Ne is a multiple of Nn ----------------
     from EasyFEA import Mesher, ElemType
@@ -142,7 +202,7 @@ def main():
         n_ = np.asarray(sA.Result("Sxx", nodeValues=True)).ravel()
         want = np.asarray(meshA.Get_Node_Values(e_.reshape(-1, 1))).ravel()
         res.case(("reshape-ambiguity",))
-        if n_.shape != want.shape or np.abs(n_ - want).max() > 1e-9 * (1 + np.abs(want).max()):
+        if n_.shape != want.shape or not (np.abs(n_ - want).max() <= 1e-9 * (1 + np.abs(want).max())):
             res.fail("Results_Reshape_values Ne-multiple-of-Nn", f"mesh with Ne = {meshA.Ne}, Nn = {meshA.Nn}: Result('Sxx', nodeValues=True) returns the element values verbatim instead of their nodal projection",
                      dict(Nn=int(meshA.Nn), Ne=int(meshA.Ne), elemType="TRI3 structured 3x2"))
 
@@ -167,7 +227,7 @@ def main():
         R = np.asarray(simu.Calc_Reaction(dofs))
         Rsum = np.array([R[np.where(dofs % dim == k)[0]].sum() for k in range(dim)])
         res.case((et, "reactions"))
-        if np.abs(Rsum + total).max() > 1e-8 * (1 + np.abs(total).max()):
+        if not (np.abs(Rsum + total).max() <= 1e-8 * (1 + np.abs(total).max())):
             res.fail("reactions balance", f"{et}: reactions on the clamped boundary sum to {Rsum.tolist()}, applied load {total.tolist()}", dict(elemType=et))
 
     # ---------------- reactions of every problem of the simulation types that solve several or another kind of problem ----------------
@@ -200,7 +260,7 @@ def main():
                     continue
                 Rs = np.array([Rr[np.where(np.asarray(dofsr) % ncomp == k)[0]].sum() for k in range(ncomp)])
                 tolr = 1e-8 if simk != "HyperElastic" else 1e-6
-                if np.abs(Rs + totalr).max() > tolr * (1 + np.abs(totalr).max()):
+                if not (np.abs(Rs + totalr).max() <= tolr * (1 + np.abs(totalr).max())):
                     res.fail(f"reactions sim={simk}", f"reactions on the clamped boundary sum to {Rs.tolist()}, applied load {totalr.tolist()}", identr)
             except Exception as ex:  # noqa: BLE001
                 res.fail(f"reactions raise sim={simk}", f"{type(ex).__name__}: {str(ex)[:150]}", identr)
@@ -229,7 +289,7 @@ def main():
             except Exception as ex:  # noqa: BLE001
                 res.fail(f"Calc_Reaction raises algo={algo}", f"{type(ex).__name__}: {str(ex)[:150]}", dict(elemType=et, algo=str(algo)))
                 continue
-            if R.shape != want.shape or np.abs(R - want).max() > 1e-9 * (1 + np.abs(want).max()):
+            if R.shape != want.shape or not (np.abs(R - want).max() <= 1e-9 * (1 + np.abs(want).max())):
                 res.fail(f"dynamic reactions algo={algo}", f"Calc_Reaction differs from (K u + C v + M a) on the constrained rows by {np.abs(R - want).max() if R.shape == want.shape else 'shape'}: inertia and damping forces are part of the balance",
                          dict(elemType=et, algo=str(algo)))
     th_ = Simulations.Thermal(M.mesh_of("QUAD4"), Models.Thermal(2.0, 1.0))
@@ -242,8 +302,132 @@ def main():
     Kt, Ct, _, _ = th_.Get_K_C_M_F()
     res.case(("thermal", "parabolic reactions"))
     Rt = np.asarray(th_.Calc_Reaction(dofs_t))
-    if np.abs(Rt - (Kt @ tu + Ct @ tv)[dofs_t]).max() > 1e-9 * (1 + np.abs(Kt @ tu).max()):
+    if not (np.abs(Rt - (Kt @ tu + Ct @ tv)[dofs_t]).max() <= 1e-9 * (1 + np.abs(Kt @ tu).max())):
         res.fail("parabolic reactions", "Calc_Reaction differs from (K u + C v) on the constrained rows", dict(sim="Thermal"))
+
+    # ---------------- energy / reactions after the caller worked IN PLACE on the matrices Get_K_C_M_F() handed out ----------------
+    # (scaling, springs on the diagonal for an eigen-analysis of his own, ...). The simulation was not touched: its named results, the
+    # matrices it hands out next and the applied loads must still be consistent with each other and with what they were.
+    def handed_out(simu, tag, pt, state, dofs, total, ncomp, ident, extra=()):
+        res.case((tag, "handed-out matrices modified in place"))
+        try:
+            get = (lambda: simu.Get_K_C_M_F(pt)) if pt is not None else (lambda: simu.Get_K_C_M_F())
+            react = (lambda: np.asarray(simu.Calc_Reaction(dofs, pt))) if pt is not None else (lambda: np.asarray(simu.Calc_Reaction(dofs)))
+            names = simu.Results_Available()
+            snap = [np.asarray(A.toarray()).copy() for A in get()]      # dense copies: what the matrices were
+            W0 = float(simu.Result("Wdef")) if "Wdef" in names else None
+            R0 = react().copy() if dofs is not None else None
+            X0 = {nm: np.asarray(simu.Result(nm)).copy() for nm in extra if nm in names}
+            for _ in range(2):                                          # the caller, twice (the second time on what he is handed after the first)
+                for A in get():
+                    A.data *= -3.0
+                    if A.shape[0] == A.shape[1] and A.shape[0] > 0:
+                        A.setdiag(A.diagonal() + 7.0)
+            now = [np.asarray(A.toarray()) for A in get()]
+            x = state[0]
+            Kx = snap[0] @ x
+            if W0 is not None:
+                W1 = float(simu.Result("Wdef"))
+                wref = 0.5 * x @ Kx
+                w1 = 0.5 * x @ (now[0] @ x)
+                if not (abs(W1 - wref) <= 1e-9 * (1 + abs(wref))) or not (abs(W1 - w1) <= 1e-9 * (1 + abs(W1))) or not (abs(W1 - W0) <= 1e-12 * (1 + abs(W0))):
+                    res.fail(f"sim={tag} Wdef after handed-out K modified in place", f"after the caller modified (in place) the matrices Get_K_C_M_F() returned to him: Wdef = {W1!r} (was {W0!r}), 1/2 u'Ku with the K handed out now = {w1!r}, "
+                             f"with the K handed out before = {wref!r}", ident)
+                    return
+            if dofs is not None:
+                want = Kx + sum(snap[i] @ state[i] for i in range(1, len(state)))
+                R1 = react()
+                devR = np.abs(R1 - want[dofs]).max() if R1.shape == want[dofs].shape else np.inf
+                if not (devR <= 1e-9 * (1 + np.abs(want).max())) or not (np.abs(R1 - R0).max() <= 1e-12 * (1 + np.abs(R0).max())):
+                    res.fail(f"sim={tag} reactions after handed-out K modified in place", f"after the caller modified (in place) the matrices Get_K_C_M_F() returned to him, Calc_Reaction differs from the internal forces of the unchanged "
+                             f"simulation by {devR:.3e} (values up to {np.abs(want[dofs]).max():.3e}), from its own earlier answer by {np.abs(R1 - R0).max() if R1.shape == R0.shape else 'shape'}", ident)
+                    return
+                if total is not None:
+                    Rs = np.array([R1[np.where(np.asarray(dofs) % ncomp == k)[0]].sum() for k in range(ncomp)])
+                    if not (np.abs(Rs + total).max() <= 1e-8 * (1 + np.abs(total).max())):
+                        res.fail(f"sim={tag} reactions balance after handed-out K modified in place", f"reactions on the clamped boundary sum to {Rs.tolist()}, applied load {np.asarray(total).tolist()}", ident)
+                        return
+            for nm, x0 in X0.items():
+                x1 = np.asarray(simu.Result(nm))
+                if x1.shape != x0.shape or not (np.abs(x1 - x0).max() <= 1e-12 * (1 + np.abs(x0).max())):
+                    res.fail(f"sim={tag} result={nm} after handed-out K modified in place", f"Result('{nm}') changed by {np.abs(x1 - x0).max() if x1.shape == x0.shape else 'shape'} although the simulation was not touched", ident)
+                    return
+            for i, nmA in enumerate("KCMF"):
+                if now[i].shape != snap[i].shape or not (np.abs(now[i] - snap[i]).max() <= 1e-12 * (1 + np.abs(snap[i]).max())):
+                    res.fail(f"sim={tag} {nmA} handed out after the caller modified the previous one", f"Get_K_C_M_F()[{i}] differs by {np.abs(now[i] - snap[i]).max() if now[i].shape == snap[i].shape else 'shape'} "
+                             "from what it was, nothing in the simulation changed: 1/2 u'Ku and K u + C v + M a computed with it are not those of the simulation", ident)
+                    return
+        except Exception as ex:  # noqa: BLE001
+            res.fail(f"sim={tag} handed-out matrices scenario raises", f"{type(ex).__name__}: {str(ex)[:150]}", ident)
+
+    for et in ["TRI3", "QUAD8", "HEXA8"]:
+        dim = M.dim_of(et)
+        mesh = M.mesh_of(et)
+        mat = Models.Elastic.Isotropic(dim, E=210e9, v=0.3, planeStress=True, thickness=0.5) if dim == 2 else Models.Elastic.Isotropic(3, E=210e9, v=0.3)
+        left = mesh.Nodes_Conditions(lambda x, y, z: x == 0)
+        right = mesh.Nodes_Conditions(lambda x, y, z: x == 2.0)
+        # static, solved: Wdef, reactions balance the load
+        try:
+            simu = Simulations.Elastic(mesh, mat)
+            unk = simu.Get_unknowns()
+            simu.add_dirichlet(left, [0.0] * dim, unk)
+            load = [1e4 * dy(rng, 1, 3) for _ in range(dim)]
+            (simu.add_lineLoad if dim == 2 else simu.add_surfLoad)(right, load, unk)
+            simu.Solve()
+            total = simu.Bc_vector_Neumann().reshape(-1, dim).sum(0)
+            handed_out(simu, "Elastic", None, [np.asarray(simu.displacement).copy()], simu.Bc_dofs_nodes(left, unk), total, dim,
+                       dict(sim="Elastic", elemType=et, case="clamped x=0, load on x=2, solved", load=load))
+        except Exception as ex:  # noqa: BLE001
+            res.fail("sim=Elastic handed-out matrices scenario raises", f"{type(ex).__name__}: {str(ex)[:150]}", dict(sim="Elastic", elemType=et))
+        # dynamic, arbitrary (u, v, a): K, C and M all take part
+        try:
+            simu = Simulations.Elastic(mesh, mat)
+            simu.rho = 7800.0
+            simu.Set_Rayleigh_Damping_Coefs(0.25, 0.125)
+            simu.Solver_Set_Hyperbolic_Algorithm(0.1)
+            n = mesh.Nn * dim
+            u, v, a = (np.array([dy(rng) for _ in range(n)]) for _ in range(3))
+            simu._Set_solutions(simu.problemType, u.copy(), v.copy(), a.copy())
+            handed_out(simu, "Elastic-dynamic", None, [u, v, a], simu.Bc_dofs_nodes(left, simu.Get_unknowns()), None, dim,
+                       dict(sim="Elastic", elemType=et, case="hyperbolic, Rayleigh damping, arbitrary (u, v, a)"))
+        except Exception as ex:  # noqa: BLE001
+            res.fail("sim=Elastic-dynamic handed-out matrices scenario raises", f"{type(ex).__name__}: {str(ex)[:150]}", dict(sim="Elastic", elemType=et))
+    try:
+        mesh = M.mesh_2d("QUAD4", 2.0, 1.0, 0.5)
+        left = mesh.Nodes_Conditions(lambda x, y, z: x == 0)
+        right = mesh.Nodes_Conditions(lambda x, y, z: x == 2.0)
+        tho = Simulations.Thermal(mesh, Models.Thermal(2.0, 1.0))
+        tho.add_dirichlet(left, [0.0], ["t"])
+        tho.add_lineLoad(right, [dy(rng, 1, 2)], ["t"])
+        tho.Solve()
+        handed_out(tho, "Thermal", None, [np.asarray(tho.thermal).copy()], tho.Bc_dofs_nodes(left, ["t"]), np.asarray(tho.Bc_vector_Neumann()).reshape(-1, 1).sum(0), 1,
+                   dict(sim="Thermal", elemType="QUAD4", case="T = 0 on x=0, flux on x=2, solved"))
+        pfo = Simulations.PhaseField(mesh, Models.PhaseField(Models.Elastic.Isotropic(2, E=210.0, v=0.3, planeStress=True, thickness=1.0), "Bourdin", "AT2", 50.0, 0.5))
+        pto = pfo.ProblemTypes.elastic
+        pfo.add_dirichlet(left, [0.0, 0.0], ["x", "y"], pto)
+        pfo.add_lineLoad(right, [dy(rng, 1, 2), dy(rng, 1, 2)], ["x", "y"], pto)
+        pfo.Solve()
+        handed_out(pfo, "PhaseField", pto, [np.asarray(pfo.displacement).copy()], pfo.Bc_dofs_nodes(left, ["x", "y"], pto), np.asarray(pfo.Bc_vector_Neumann(pto)).reshape(-1, 2).sum(0), 2,
+                   dict(sim="PhaseField", elemType="QUAD4", case="clamped x=0, load on x=2, solved"))
+    except Exception as ex:  # noqa: BLE001
+        res.fail("sim=Thermal/PhaseField handed-out matrices scenario raises", f"{type(ex).__name__}: {str(ex)[:150]}", dict(sim="Thermal/PhaseField"))
+    try:
+        from EasyFEA.Geoms import Line as _Lo, Point as _Po, Domain as _Do
+        lineo = _Lo(_Po(0, 0, 0), _Po(2.0, 0.0, 0.0), 0.5)
+        beamo = Models.Beam.Isotropic(2, lineo, Mesher().Mesh_2D(_Do(_Po(0, 0), _Po(0.1, 0.2), 0.05)), E=210e9, v=0.3)
+        bmo = Mesher().Mesh_Beams([beamo], ElemType.SEG3)
+        bso = Simulations.Beam(bmo, Models.Beam.BeamStructure([beamo]))
+        n0 = bmo.Nodes_Conditions(lambda x, y, z: x == 0)
+        n1 = bmo.Nodes_Conditions(lambda x, y, z: x == 2.0)
+        unkb = bso.Get_unknowns()
+        bso.add_dirichlet(n0, [0.0] * len(unkb), unkb)
+        loadb = [1e3 * dy(rng, 1, 2), -1e3 * dy(rng, 1, 2)]
+        bso.add_neumann(n1, loadb, ["x", "y"])
+        bso.Solve()
+        handed_out(bso, "Beam", None, [np.asarray(bso.displacement).copy()], bso.Bc_dofs_nodes(n0, unkb), None, len(unkb),
+                   dict(sim="Beam", dim=2, elemType="SEG3", case="cantilever, end load, solved", load=loadb), extra=("fx", "fy", "cz"))
+    except Exception as ex:  # noqa: BLE001
+        res.fail("sim=Beam handed-out matrices scenario raises", f"{type(ex).__name__}: {str(ex)[:150]}", dict(sim="Beam"))
 
     # ---------------- other simulation types: advertised names and kinematic components ----------------
     def check_names(simu, tag, ident):
@@ -284,7 +468,7 @@ def main():
                 continue
             got = np.asarray(wf.Result(pre + axn)).ravel()
             res.case(("WeakForms", pre + axn))
-            if np.abs(got - arr.reshape(-1, 2)[:, k]).max() > 1e-12:
+            if not (np.abs(got - arr.reshape(-1, 2)[:, k]).max() <= 1e-12):
                 res.fail(f"sim=WeakForms component={pre}{axn}", f"Result('{pre}{axn}') is not component {k} of {pre}", ident)
     # Thermal
     th = Simulations.Thermal(mesh, Models.Thermal(2.0, 1.0))
@@ -303,7 +487,7 @@ def main():
                 if pre + axn in he.Results_Available():
                     got = np.asarray(he.Result(pre + axn)).ravel()
                     res.case(("HyperElastic", pre + axn))
-                    if np.abs(got - arr.reshape(-1, 2)[:, k]).max() > 1e-12:
+                    if not (np.abs(got - arr.reshape(-1, 2)[:, k]).max() <= 1e-12):
                         res.fail(f"sim=HyperElastic component={pre}{axn}", f"Result('{pre}{axn}') is not component {k} of {pre}", dict(sim="HyperElastic"))
     except Exception as ex:  # noqa: BLE001
         res.fail("HyperElastic names scenario raises", f"{type(ex).__name__}: {str(ex)[:150]}", dict(sim="HyperElastic"))
@@ -317,7 +501,7 @@ def main():
             if "u" + axn in names:
                 got = np.asarray(simu.Result("u" + axn, nodeValues=True)).ravel()
                 res.case((tag, dim, "u" + axn))
-                if k >= U.shape[1] or got.shape != (Nn,) or np.abs(got - U[:, k]).max() > 1e-12:
+                if not (k < U.shape[1]) or got.shape != (Nn,) or not (np.abs(got - U[:, k]).max() <= 1e-12):
                     res.fail(f"sim={tag} component=u{axn}", f"Result('u{axn}') is not component {k} of the displacement (dim {dim})", ident)
         KK = K2 if dim == 2 else K3
         for letter, tname in (("S", "Stress"), ("E", "Strain")):
@@ -335,7 +519,7 @@ def main():
                 except Exception:  # noqa: BLE001
                     continue
                 res.case((tag, dim, letter + cn))
-                if T.ndim != 2 or k >= T.shape[1] or np.abs(got - T[:, k]).max() > 1e-10 * (1 + np.abs(T).max()):
+                if T.ndim != 2 or not (k < T.shape[1]) or not (np.abs(got - T[:, k]).max() <= 1e-10 * (1 + np.abs(T).max())):
                     res.fail(f"sim={tag} component={letter}{cn}", f"Result('{letter}{cn}') differs from column {k} of Result('{tname}') (dim {dim})", ident)
             if letter + "vm" in names and T.ndim == 2:
                 got = np.asarray(simu.Result(letter + "vm", nodeValues=False)).ravel()
@@ -362,7 +546,7 @@ def main():
             Ku = pf.Get_K_C_M_F(pf.ProblemTypes.elastic)[0]
             res.case(("PhaseField", et, "Wdef"))
             Wp = pf.Result("Wdef")
-            if abs(Wp - 0.5 * up @ (Ku @ up)) > 1e-9 * (1 + abs(Wp)):
+            if not (abs(Wp - 0.5 * up @ (Ku @ up)) <= 1e-9 * (1 + abs(Wp))):
                 res.fail("sim=PhaseField Wdef", f"Wdef = {Wp!r} but 1/2 u'K(d)u = {0.5 * up @ (Ku @ up)!r}", ident)
         except Exception as ex:  # noqa: BLE001
             res.fail(f"sim=PhaseField raises dim={dim}", f"{type(ex).__name__}: {str(ex)[:150]}", dict(sim="PhaseField", elemType=et))
@@ -403,7 +587,7 @@ def main():
             res.case(("PhaseField", "Wdef per iteration", i))
             Wi = float(ph.Result("Wdef", iter=i))
             Pi = float(ph.Result("Psi_Crack", iter=i))
-            if abs(Wi - recorded[i][0]) > 1e-8 * (1e-300 + abs(recorded[i][0])) or abs(Pi - recorded[i][1]) > 1e-8 * (1e-300 + abs(recorded[i][1])):
+            if not (abs(Wi - recorded[i][0]) <= 1e-8 * (1e-300 + abs(recorded[i][0]))) or not (abs(Pi - recorded[i][1]) <= 1e-8 * (1e-300 + abs(recorded[i][1]))):
                 res.fail("sim=PhaseField energies of a stored iteration", f"Result('Wdef', iter={i}) = {Wi!r} / Result('Psi_Crack', iter={i}) = {Pi!r} but they were {recorded[i][0]!r} / {recorded[i][1]!r} when that iteration was the current state "
                          "(1/2 u'K(d)u must use the stiffness of the activated state)", dict(sim="PhaseField", iteration=i))
                 break
@@ -439,7 +623,7 @@ def main():
                     if rn in names:
                         got = np.asarray(bs.Result(rn, nodeValues=True)).ravel()
                         res.case(("Beam", bdim, timo, bet, rn))
-                        if got.shape != (bmesh.Nn,) or np.abs(got - Ub[:, k]).max() > 1e-12:
+                        if got.shape != (bmesh.Nn,) or not (np.abs(got - Ub[:, k]).max() <= 1e-12):
                             res.fail(f"sim=Beam component={rn}", f"Result('{rn}') is not component {k} of the beam unknowns {unk}", ident)
                 # internal forces / generalised strains / stresses vs the vector results they belong to
                 try:
@@ -460,7 +644,7 @@ def main():
                         except Exception:  # noqa: BLE001
                             continue    # reported by check_names
                         res.case(("Beam", bdim, timo, bet, nm))
-                        if got.shape != vec[:, k].shape or np.abs(got - vec[:, k]).max() > 1e-10 * (1 + np.abs(vec).max()):
+                        if got.shape != vec[:, k].shape or not (np.abs(got - vec[:, k]).max() <= 1e-10 * (1 + np.abs(vec).max())):
                             res.fail(f"sim=Beam component={nm}", f"Result('{nm}') differs from column {k} of the {what} (element means)", ident)
 
     # ---------------- correspondence ----------------
@@ -484,7 +668,7 @@ def main():
             name, f, c = ent.split(":")
             res.traces += 1
             got = np.asarray(s3.Result(name)).ravel()
-            if np.abs(got - F[int(f)].reshape(-1, 3)[:, int(c)]).max() > 1e-12:
+            if not (np.abs(got - F[int(f)].reshape(-1, 3)[:, int(c)]).max() <= 1e-12):
                 res.disagree("kinematic-table Elastic", dict(name=name, model=(f, c)))
         res.traces += 1
         if answers[1] != answers[0]:
@@ -493,7 +677,7 @@ def main():
             m3 = float(parse_frac(answers[4 + 2 * k]))
             m2 = float(parse_frac(answers[5 + 2 * k]))
             res.traces += 2
-            if abs(m3 - vm(np.array(p), 3) ** 2) > 1e-9 * (1 + m3) or abs(m2 - vm(np.array(p[:3]), 2) ** 2) > 1e-9 * (1 + m2):
+            if not (abs(m3 - vm(np.array(p), 3) ** 2) <= 1e-9 * (1 + m3)) or not (abs(m2 - vm(np.array(p[:3]), 2) ** 2) <= 1e-9 * (1 + m2)):
                 res.disagree("von-mises-expression", dict(point=p))
     res.search_note = "all advertised names on arbitrary states: no inconsistent component, invariant, energy or reaction found"
     res.write("Elastic simulations of 2D/3D element types with seeded arbitrary (u, v, a): every advertised result name in nodal and element form, components vs tensors, "
